@@ -90,7 +90,7 @@ int orc_ngp(void) { return ngp; }
 /* ---------------------------------------------------------------- callbacks */
 #define MAXCB 2048
 #define MAXBAR 256
-struct cb { int gp; uint64_t called, start, end; int count, who; };
+struct cb { int gp; uint64_t called, start, end; int count, who, maybe_lost; };
 static struct cb cbs[MAXCB];
 static int ncb;
 static struct { uint64_t enter; int who; } bars[MAXBAR];
@@ -148,11 +148,20 @@ void orc_barrier_return(int b)
 		usim_mark_nontrivial();
 }
 
+/* in a forked child: a call_rcu() of another thread that had not returned at fork() time may or may not have queued its callback */
+void orc_cb_forked_child(void)
+{
+	int i;
+	for (i = 0; i < ncb; i++)
+		if (!cbs[i].called)
+			cbs[i].maybe_lost = 1;
+}
+
 void orc_cb_final_check(const char *what)
 {
 	int i;
 	for (i = 0; i < ncb; i++)
-		if (cbs[i].count != 1)
+		if (cbs[i].count != 1 && !(cbs[i].maybe_lost && cbs[i].count == 0))
 			usim_fail(cbs[i].count ? "callback-twice" : "callback-lost",
 				"%s: callback #%d queued by thread %d (call_rcu %s) ran %d times",
 				what, i, cbs[i].who, cbs[i].called ? "returned" : "did not return", cbs[i].count);
